@@ -241,6 +241,10 @@ class Gen:
             return [o] + [self.num(depth - 1) for _ in range(n)]
         if o in ("/", "**", "//", "%"):
             a, b = self.num(depth - 1), self.num(depth - 1)
+            if o in ("/", "//", "%") and b == ["c", 0]:
+                # division by the literal 0 is outside every claim, uninterpreted in the symbolic run and an error in every
+                # concrete replay (a candidate found next to it could never be confirmed)
+                b = ["c", 2]
             if o == "**" and self.literal_exponents:
                 b = ["c", self.rng.choice([0, 1, 2, 2, 3])]
             if o == "**" and b[0] not in ("v", "c") and not any(sub[0] == "v" for _, sub in subterms(b)):
